@@ -111,6 +111,34 @@ def main():
             r = res[k]
             R.violation("correspondence", "model xform and the real transformer disagree on %s (xform(original)==real: %s, strip(real)==original: %s)" % (r["path"], m[0], m[1]),
                         {"file": r["path"], "model_bits": m}, key={"kind": "model", "path": r["path"]}, no_input=r["ok"])
+    # ---- C: the same transformation as the IPython magic registers it, in a real InteractiveShell: every cell must be
+    #         self-contained (own `import jaxtyping`, placed after docstring/__future__), whatever happened to the user
+    #         namespace in between (%reset -f, a user variable called jaxtyping)
+    import c11, tempfile, shutil, subprocess
+    root = tempfile.mkdtemp(prefix="vfc10")
+    try:
+        c11.make_forest(root)
+        env = vf.impl_env()
+        ipy = [h for h in c11.IPY_CATALOGUE] + [c11.gen_ipython(R.rng) for _ in range(60 if R.thorough else 5)]
+        def runi(ops):
+            p = subprocess.run([vf.PY, os.path.join(vf.VERIF, "harness", "impl_hookfront.py"), "ipython", root, json.dumps({"ops": ops})], capture_output=True, text=True, env=env, timeout=600, cwd=root)
+            lines = [l for l in p.stdout.splitlines() if l.startswith("{")]
+            return json.loads(lines[-1]) if lines else {"error": (p.stderr or p.stdout)[-600:]}
+        with ThreadPoolExecutor(nw) as ex:
+            ires = list(ex.map(runi, ipy))
+    finally:
+        shutil.rmtree(root, ignore_errors=True)
+    for ops, r in zip(ipy, ires):
+        R.count("ipython-history")
+        if "error" in r:
+            R.violation("correspondence", "IPython history failed %s: %s" % (json.dumps(ops), r["error"][-300:]), {"ops": ops}, key={"kind": "ipython-run-error"}, no_input=True); continue
+        programs += len(r["cells"])
+        want = c11.ipy_reference(ops)[0]
+        bad = [c for c, w in zip(r["cells"], want) if c != w]
+        if bad or any(x != [[2], True] for x in r["selfc"]):
+            R.violation("property", "IPython history %s: cells transformed by the magic's transformer came out as %s (expected %s); self-containedness of the registered transformer "
+                        "[positions of `import jaxtyping` in a cell with docstring and __future__ import, runs in an empty namespace] = %s (expected [[2], True])" % (json.dumps(ops), r["cells"], want, r["selfc"]),
+                        {"front_end": "ipython", "ops": ops, "got": r["cells"], "expected": want, "selfc": r["selfc"]}, key={"kind": "ipython-cell"})
     if not proved:
         R.violation("proof", "proof obligations of props/C10.v no longer check: " + str(R.broken_proof)[-800:],
                     {"theorem_file": "coq/props/C10.v", "log": R.broken_proof}, no_input=not any(v["kind"] == "property" for v in R.violations))
